@@ -94,3 +94,70 @@ func VerifC07TextLong() {
 	base := [3]int{0, 10, 16}[verifChoice("base", 3)]
 	c07Text(n, base)
 }
+
+// ---- conversion TO text: str(n), repr(n) ----
+//
+// The text of an integer is unique: an optional '-', then (after the prefix, if
+// any) the digits of |n| in the base without a leading zero (the single digit
+// "0" for zero), lower case. c07CanonText states exactly that by reading the
+// text back.
+func c07CanonText(s string, prefix string, base int, v *big.Int) bool {
+	neg := v.Sign() < 0
+	if neg {
+		if len(s) == 0 || s[0] != '-' {
+			return false
+		}
+		s = s[1:]
+	}
+	if len(s) < len(prefix) || s[:len(prefix)] != prefix {
+		return false
+	}
+	s = s[len(prefix):]
+	if len(s) == 0 {
+		return false
+	}
+	if len(s) > 1 && s[0] == '0' {
+		return false
+	}
+	for i := 0; i < len(s); i++ {
+		if s[i] >= 'A' && s[i] <= 'Z' {
+			return false
+		}
+	}
+	got, ok := verifParseDigits(s, base)
+	if !ok {
+		return false
+	}
+	return got.Cmp(new(big.Int).Abs(v)) == 0
+}
+
+//verif:property C07
+//verif:encoding int
+//verif:expect called
+func VerifC07ToText() {
+	a, av := c07Operand("a", verifBound(70, 100), 3)
+	var got Object
+	var err error
+	how := verifChoice("how", 2)
+	if how == 0 {
+		got, err = Str(a)
+	} else {
+		got, err = Repr(a)
+	}
+	verifReach("called")
+	verifAssert(err == nil, "no error")
+	s, ok := got.(String)
+	verifAssert(ok, "str()/repr() of an integer is a string")
+	if _, isBool := a.(Bool); isBool {
+		if av.Sign() != 0 {
+			verifAssert(s == "True", "str(True)")
+		} else {
+			verifAssert(s == "False", "str(False)")
+		}
+		return
+	}
+	verifAssert(c07CanonText(string(s), "", 10, av), "str(n) is the canonical decimal text of n")
+	// and back again
+	back, err := IntFromString(string(s), 10)
+	verifAssert(err == nil && c07Same(back, av), "int(str(n)) == n")
+}
